@@ -12,10 +12,10 @@ import (
 
 func init() {
 	register(&ruleSet{
-		id:         "C18",
-		title:      "printf emits exactly the format, each directive replaced and padded",
-		run:        runC18,
-		decided:    "printf performs exactly one write to the output, of the locally built string, and no error return is reachable after it nor any write before it (so a failing printf writes nothing); the directive table (%% -> '%', %s -> a checked string argument, %f -> a checked number argument, %v -> any argument rendered at top level under an explicit argument-count guard, anything else -> error; a trailing % or width -> error before the byte is read); literal bytes are copied unchanged; padding: the pad count is |width| - len(rendering), computed only under len(rendering) < |width| (never negative, never truncating), on the left for a positive and on the right for a negative width, pad byte '0' exactly when the width text starts with '0'; the width limit test precedes every use of the width; arguments are consumed in order, one per directive." +
+		id:    "C18",
+		title: "printf emits exactly the format, each directive replaced and padded",
+		run:   runC18,
+		decided: "printf performs exactly one write to the output, of the locally built string, and no error return is reachable after it nor any write before it (so a failing printf writes nothing); the directive table (%% -> '%', %s -> a checked string argument, %f -> a checked number argument, %v -> any argument rendered at top level under an explicit argument-count guard, anything else -> error; a trailing % or width -> error before the byte is read); literal bytes are copied unchanged; padding: the pad count is |width| - len(rendering), computed only under len(rendering) < |width| (never negative, never truncating), on the left for a positive and on the right for a negative width, pad byte '0' exactly when the width text starts with '0'; the width limit test precedes every use of the width; arguments are consumed in order, one per directive." +
 			" The argument index moves on only under %s, %f and %v; call arguments are evaluated into cells of their own; numbers are rendered by FormatFloat(x,'f',-1,64) only." +
 			" A copied argument keeps its kind.",
 		notDecided: "byte-exact output for every format string (the scanner's index arithmetic is only checked through its guards).",
